@@ -107,6 +107,54 @@ def cmp_transitions(ref, J, exact=True):
     return None
 
 
+MUTABLE = ("occ", "clustercount", "dcluster", "occupied_set", "unoccupied_set", "index", "jump_Q")
+
+
+def check_param_aliasing(ref):
+    """no array the compiled sampler WRITES may share memory with any array held by the reference sampler"""
+    from onsager import cluster
+    param = cluster.MonteCarloSampler_param(ref)
+    for k in MUTABLE:
+        a = param.get(k)
+        if not isinstance(a, np.ndarray): continue
+        for name, b in vars(ref).items():
+            if isinstance(b, np.ndarray) and a.size and b.size and np.shares_memory(a, b):
+                return "MonteCarloSampler_param(...)['%s'] shares memory with the reference sampler's .%s" % (k, name)
+    return None
+
+
+def snap_ref(ref):
+    return (np.array(ref.occ).copy(), np.array(ref.clustercount).copy(), set(ref.occupied_set), set(ref.unoccupied_set), ref.E())
+
+
+def snap_jit(J):
+    return (np.array(J.occ).copy(), np.array(J.clustercount).copy(), int(J.Nocc), int(J.Nunocc),
+            np.array(J.occupied_set[:J.Nocc]).copy(), np.array(J.unoccupied_set[:J.Nunocc]).copy(), np.array(J.index).copy(), J.E())
+
+
+def same_snap(a, b):
+    for x, y in zip(a, b):
+        if isinstance(x, np.ndarray):
+            if not np.array_equal(x, y): return False
+        elif x != y: return False
+    return True
+
+
+def both(ref, J, fref, fjit, first, what, hist):
+    """apply the same operation to both samplers in the given order; the one applied first must leave the other untouched"""
+    if first == "ref":
+        sj = snap_jit(J); fref()
+        if not same_snap(sj, snap_jit(J)):
+            raise Violation("%s on the reference sampler changed the observable state of the compiled sampler" % what, "c35-aliasing", dict(history=hist[-40:]))
+        fjit()
+    else:
+        sr = snap_ref(ref); fjit()
+        if not same_snap(sr, snap_ref(ref)):
+            raise Violation("%s on the compiled sampler changed the observable state (occ / sets / clustercount / E) of the reference sampler it was built from"
+                            % what, "c35-aliasing", dict(history=hist[-40:]))
+        fref()
+
+
 def jstate_term(J):
     return "(mkJ %s %s (N %d) (N %d) (NL %s) (NL %s) %s)" % (mcsys.zl(J.occ), mcsys.zl(J.clustercount), J.Nocc, J.Nunocc,
                                                             mcsys.zl(J.occupied_set), mcsys.zl(J.unoccupied_set), mcsys.zl(J.index))
@@ -127,14 +175,20 @@ def jtrans_term(J):
     return "(JTrans (K:=Zring) [%s])" % ";".join(rows)
 
 
-def history(ck, rng, S, nops, trans_broken, exact=True, record=True, started=None):
-    """drive the reference and the compiled implementation with the same history; compare; record Coq events"""
+def history(ck, rng, S, nops, trans_broken, exact=True, record=True, started=None, order="ref"):
+    """drive the reference and the compiled implementation with the same history; compare; record Coq events.
+    order: which sampler performs each state-changing call first ("ref", "jit", or "mixed" = drawn per call)"""
     ref = S.MC
     ev = []
     hist = []
     if started is not None:
         ref.start(started.copy())
+    d = check_param_aliasing(ref)
+    if d: raise Violation(d, "c35-aliasing", dict(history=hist, started=None if started is None else started.tolist()))
     J = make_jit(ref)
+
+    def first():
+        return order if order in ("ref", "jit") else rng.choice(("ref", "jit"))
     allocc = np.ones(S.Nsites, dtype=int)
     if S.vacancy >= 0: allocc[S.vacancy] = -1
     # (an un-started reference sampler: the constructor promises the all-occupied state)
@@ -155,7 +209,7 @@ def history(ck, rng, S, nops, trans_broken, exact=True, record=True, started=Non
             if r < 0.08 or not un or not oc:
                 occ = mcsys.random_occ(rng, S)
                 hist.append(["start", occ.tolist()])
-                ref.start(occ.copy()); J.start(occ)
+                both(ref, J, lambda: ref.start(occ.copy()), lambda: J.start(occ), first(), "start()", hist)
                 if record: ev.append("(JStart (K:=Zring) %s %s)" % (mcsys.zl(occ), jobs_term(J)))
                 if not un or not oc:
                     if k > 3 and (S.Nsites - (S.vacancy >= 0)) < 2: break
@@ -170,7 +224,7 @@ def history(ck, rng, S, nops, trans_broken, exact=True, record=True, started=Non
             elif r < 0.60:
                 i, j = rng.choice(un), rng.choice(oc)
                 hist.append(["update", i, j])
-                ref.update((i,), (j,)); J.update(i, j)
+                both(ref, J, lambda: ref.update((i,), (j,)), lambda: J.update(i, j), first(), "update(%d,%d)" % (i, j), hist)
                 if record: ev.append("(JUpdate (K:=Zring) (N %d) (N %d) %s)" % (i, j, jobs_term(J)))
                 ntrivial += 1
             elif r < 0.75 and ref.jumps is not None and not trans_broken:
@@ -191,10 +245,12 @@ def history(ck, rng, S, nops, trans_broken, exact=True, record=True, started=Non
                 ambiguous = False
                 for n in range(nm):      # move by move: compiled single-move batches, and the rule on the reference sampler
                     i, j = int(J.unoccupied_set[occh[n]]), int(J.occupied_set[unch[n]])
-                    dE = ref.deltaE_trial((i,), (j,))
-                    if not exact and abs(dE - kt[n]) < 1e-7: ambiguous = True
-                    if dE < kt[n]: ref.update((i,), (j,))
-                    J.MCmoves(occh[n:n + 1], unch[n:n + 1], kt[n:n + 1])
+                    if not exact and abs(J.deltaE_trial(i, j) - kt[n]) < 1e-7: ambiguous = True
+
+                    def ref_move(i=i, j=j, n=n):
+                        if ref.deltaE_trial((i,), (j,)) < kt[n]: ref.update((i,), (j,))
+                    both(ref, J, ref_move, lambda n=n: J.MCmoves(occh[n:n + 1], unch[n:n + 1], kt[n:n + 1]), first(),
+                         "MCmoves (one move: occupy %d, unoccupy %d)" % (i, j), hist)
                     if not ambiguous:
                         d = check_R(ref, J, exact)
                         if d: raise Violation("MCmoves move %d of %d vs the Metropolis rule on the reference sampler: %s" % (n, nm, d),
@@ -225,10 +281,13 @@ def history(ck, rng, S, nops, trans_broken, exact=True, record=True, started=Non
 def exhaustive(ck, rng, S, trans_broken):
     """every occupation x every (unoccupied, occupied) swap: trial, update, transitions, state; then swap back"""
     ref = S.MC
+    ref.start(mcsys.random_occ(rng, S))          # the compiled sampler is built from a STARTED reference sampler
+    d = check_param_aliasing(ref)
+    if d: raise Violation(d, "c35-aliasing", {})
     J = make_jit(ref)
     n = 0
     for occ in mcsys.all_occs(S):
-        ref.start(occ.copy()); J.start(occ)
+        both(ref, J, lambda: ref.start(occ.copy()), lambda: J.start(occ), "jit" if n % 2 else "ref", "start()", [occ.tolist()])
         d = check_R(ref, J)
         if d: raise Violation("after start(%s): %s" % (occ.tolist(), d), "c35-state", dict(occ=occ.tolist()))
         if ref.jumps is not None and not trans_broken:
@@ -241,11 +300,11 @@ def exhaustive(ck, rng, S, trans_broken):
                 d1, d2 = ref.deltaE_trial((i,), (j,)), J.deltaE_trial(i, j)
                 if d1 != d2: raise Violation("deltaE_trial(%d,%d) at %s: reference %r, compiled %r" % (i, j, occ.tolist(), d1, d2),
                                              "c35-deltaE", dict(occ=occ.tolist(), i=i, j=j))
-                ref.update((i,), (j,)); J.update(i, j)
+                both(ref, J, lambda: ref.update((i,), (j,)), lambda: J.update(i, j), "jit", "update(%d,%d)" % (i, j), [occ.tolist()])
                 d = check_R(ref, J)
                 if not d and ref.jumps is not None and not trans_broken: d = cmp_transitions(ref, J)
                 if d: raise Violation("after update(%d,%d) from %s: %s" % (i, j, occ.tolist(), d), "c35-state", dict(occ=occ.tolist(), i=i, j=j))
-                ref.update((j,), (i,)); J.update(j, i)
+                both(ref, J, lambda: ref.update((j,), (i,)), lambda: J.update(j, i), "ref", "update(%d,%d)" % (j, i), [occ.tolist()])
                 d = check_R(ref, J)
                 if d: raise Violation("after update(%d,%d);update(%d,%d) from %s: %s" % (i, j, j, i, occ.tolist(), d), "c35-state",
                                       dict(occ=occ.tolist(), i=i, j=j))
@@ -282,7 +341,8 @@ def run(ck):
     ck.rule = ("systems: crystal pool (chain, ladder, sc, fcc, bcc, hcp, 2-site chain, spectators, two mobile species) x superlattice x "
                "cluster cutoff/order x {plain, jump network + TS clusters, vacancy + jump network}; integer energies, quarter-integer "
                "Metropolis thresholds. Histories of start / deltaE_trial / update / transitions / MCmoves (1-12 moves) driven on the "
-               "compiled and the reference implementation together, compiled sampler built from a started or an un-started reference "
+               "compiled and the reference implementation in three orders (reference first / compiled first / drawn per call; the sampler that moves "
+               "first must leave the other's occ, sets, counts and E untouched), compiled sampler built from a started (3 of 4) or un-started reference "
                "sampler; bounded-exhaustive: all occupations x all swaps on supercells with <= 6 (quick) / 8 (thorough) free sites; "
                "a float-energy tier with 1e-9 tolerance. distinct = (system, history position / occupation, arguments)")
     ck.trusted += ["harness/c35.py, mcsys.py", "numba (jitclass compilation of MonteCarloSampler_jit)",
@@ -317,15 +377,18 @@ def run(ck):
         nint = len(S.MC.interactvalue)
         if nint > ck.n(500, 900): continue
         nops = max(15, min(ck.n(120, 300), 30000 // (nint + 2 * S.Nsites + 20)))
-        started = mcsys.random_occ(rng, S) if rng.random() < 0.5 else None
+        # compiled sampler built from a STARTED reference sampler in 3 of 4 histories; who moves first cycles
+        started = mcsys.random_occ(rng, S) if len(items) % 4 != 3 else None
+        order = ("jit", "ref", "mixed")[len(items) % 3]
         try:
-            ev, nop, nt = history(ck, rng, S, nops, trans_broken, started=started)
+            ev, nop, nt = history(ck, rng, S, nops, trans_broken, started=started, order=order)
         except Violation as v:
             ck.violation("%s [%s]" % (v.what, S.label), dict(sysinfo(S), **v.detail), key=v.key)
             continue
         items.append((S, ev))
         nev_total += len(ev)
-        ck.case(key=("history", S.label, len(ev), hash(tuple(ev)) & 0xffffffff), nontrivial=nt > 0, kind="history:%s" % S.name,
+        ck.case(key=("history", S.label, len(ev), hash(tuple(ev)) & 0xffffffff), nontrivial=nt > 0,
+                kind="history:%s-first:%s" % (order, "started" if started is not None else "unstarted"),
                 sample={"system": S.label, "events": len(ev), "first_events": [e[:200] for e in ev[:3]]} if len(ck.samples) < 3 else None)
     # ---- bounded-exhaustive ------------------------------------------------------------------------
     nex, maxfree = 0, ck.n(6, 8)
@@ -348,7 +411,7 @@ def run(ck):
         if S is None or S.Nsites - (S.vacancy >= 0) < 2 or len(S.MC.interactvalue) > 3000: continue
         try:
             ev, nop, nt = history(ck, rng, S, ck.n(60, 200), trans_broken, exact=False, record=False,
-                                  started=mcsys.random_occ(rng, S) if nfl % 2 else None)
+                                  started=mcsys.random_occ(rng, S) if nfl % 2 else None, order=("mixed", "jit", "ref")[nfl % 3])
             ck.case(key=("float-history", S.label, nop), nontrivial=nt > 0, kind="float-history:%s" % S.name)
         except Violation as v:
             ck.violation("%s [%s] (float energies)" % (v.what, S.label), dict(sysinfo(S), **v.detail), key=v.key)
